@@ -395,7 +395,7 @@ func (rn *runner) generate() error {
 
 	// 6d. bodies delivered in 1-4 chunks through WriteRequestBody / ReadRequestBodyFrom with
 	// SecRequestBodyLimit around the body size and on chunk boundaries, both limit actions
-	for i := 0; i < cfg.Pick(450, 3000); i++ {
+	for i := 0; i < cfg.Pick(350, 3000); i++ {
 		c := &caseJSON{Kind: "chunked", Reject: r.Intn(2) == 0}
 		var body string
 		switch r.Intn(5) {
@@ -472,6 +472,103 @@ func (rn *runner) generate() error {
 		}
 	}
 
+	// 6d'. every body kind in 1-5 chunks around an explicit SecRequestBodyInMemoryLimit below the body
+	// limit (the buffer spills to a temp file): WriteRequestBody / ReadRequestBodyFrom, split points at
+	// and next to the in-memory limit; must expose the same as the one-piece delivery
+	for i := 0; i < cfg.Pick(260, 2500); i++ {
+		c := &caseJSON{Kind: "chunked", Reject: r.Intn(2) == 0}
+		var body string
+		switch r.Intn(6) {
+		case 0:
+			l := genPairs(r, true)
+			t := jnode{T: "obj"}
+			seen := map[string]bool{}
+			for _, p := range l {
+				if seen[lowerASCII(p.K)] {
+					continue
+				}
+				seen[lowerASCII(p.K)] = true
+				t.Keys = append(t.Keys, hx(p.K))
+				t.Items = append(t.Items, jnode{T: "s", S: hx(p.V)})
+			}
+			c.Tree, c.Via, c.Ctl = &t, "jsontree", "JSON"
+			c.Pairs = pairsHex([]pair{{"Content-Type", "application/json"}})
+			body = t.serialise()
+		case 1:
+			body = randFrom(r, "ab=&%\x00 ", 8+r.Intn(60))
+			c.Via, c.Ctl, c.BodyHex = "raw", "RAW", hx(body)
+			c.Pairs = pairsHex([]pair{{"Content-Type", "text/plain"}})
+		case 2:
+			parts := [][3]string{{hx("note"), "", hx("hello world")}, {hx("up"), hx("e.php"), hx(randFrom(r, "abc<?>", 5+r.Intn(40)))}, {hx("z"), "", hx("last=1")}}
+			body = mpPrint("XbOuNdArY7", parts)
+			c.Via, c.BodyHex = "multipart", hx(body)
+			c.Pairs = pairsHex([]pair{{"Content-Type", "multipart/form-data; boundary=XbOuNdArY7"}})
+		case 3:
+			body = "<root a=\"1\"><e b=\"" + randFrom(r, "abc", 3+r.Intn(10)) + "\">text " + randFrom(r, "xyz ", r.Intn(30)) + "</e><f>more</f></root>"
+			c.Via, c.Ctl, c.BodyHex = "xml", "XML", hx(body)
+			c.Pairs = pairsHex([]pair{{"Content-Type", "text/xml"}})
+		default:
+			l := genPairs(r, false)
+			for len(encQueryCanon(l)) < 12 {
+				l = append(l, pair{"k" + string(rune('a'+r.Intn(26))), pick(r, valPool)})
+			}
+			body = encQueryCanon(l)
+			c.Via, c.Orig, c.BodyHex = "urlencoded", pairsHex(l), hx(body)
+			c.Pairs = pairsHex([]pair{{"Content-Type", ctAccepted[r.Intn(len(ctAccepted))]}})
+		}
+		n := len(body)
+		if n < 4 {
+			continue
+		}
+		c.InMem = 1 + r.Intn(n-1)
+		if r.Intn(3) == 0 {
+			c.InMem = []int{1, 2, n / 2, n - 1}[r.Intn(4)]
+		}
+		if c.InMem < 1 {
+			c.InMem = 1
+		}
+		c.BodyLimit = n + 1 + r.Intn(60)
+		// split points: around the in-memory limit and elsewhere
+		k := 1 + r.Intn(5)
+		cutSet := map[int]bool{}
+		for j := 1; j < k; j++ {
+			x := 1 + r.Intn(n-1)
+			if r.Intn(2) == 0 {
+				x = c.InMem + r.Intn(5) - 2
+			}
+			if x >= 1 && x < n {
+				cutSet[x] = true
+			}
+		}
+		var cuts []int
+		for x := range cutSet {
+			cuts = append(cuts, x)
+		}
+		sortInts(cuts)
+		prev := 0
+		api := r.Intn(4)
+		for _, x := range append(cuts, n) {
+			a := api
+			if api == 3 {
+				a = r.Intn(3)
+			}
+			c.Chunks = append(c.Chunks, chunkJSON{API: a, Len: x - prev})
+			prev = x
+		}
+		if err := run(c); err != nil {
+			return err
+		}
+	}
+	// the three-step shape: held in memory, a chunk crossing the in-memory limit, a later small chunk
+	for _, api := range []int{0, 1, 2} {
+		l := []pair{{"a", "11111"}, {"b", "22222"}, {"evil", "payload"}, {"c", "3"}}
+		if err := run(&caseJSON{Kind: "chunked", Via: "urlencoded", Orig: pairsHex(l), BodyHex: hx(encQueryCanon(l)),
+			Pairs: pairsHex([]pair{{"Content-Type", "application/x-www-form-urlencoded"}}), BodyLimit: 200, InMem: 10,
+			Chunks: []chunkJSON{{api, 6}, {api, 9}, {api, 5}, {api, 4}, {api, 100}}}); err != nil {
+			return err
+		}
+	}
+
 	// 6e. multipart bodies with 1-3 fields and 1-2 files cut at every offset class, delivered
 	// directly (the client stopped) and through a ProcessPartial limit
 	mpContents := []string{"hello", "", "a", "0123456789", "<?php x ?>", "v=1&w=2", "line1\r\nline2", "--dash", "a\r", "\x00\xff\xfe"}
@@ -515,7 +612,7 @@ func (rn *runner) generate() error {
 	mpFiles := []string{"a.txt", "e.php", "A.TXT", "q\"uote.txt", "semi;colon.bin", "C:\\dir\\f.txt", "\xc3\xbc.txt", "sp ace.txt", "x\\\"y", "a.txt", "..\\..\\etc", "f=1"}
 	mpBodies := []string{"", "hello", "a", "line1\r\nline2", "--", "\r\n", "\r\n--", "--XbOuNdArY7", "\r\n-", "\x00\xff", "v=1&w=2;%41+", "\r", "\n--XbOuNdArY7", "Content-Disposition: form-data; name=\"x\"", "\r\n--XbOuNdArY"}
 	mpBounds := []string{"XbOuNdArY7", "b", "----WebKitFormBoundary7MA4YWxk", "a-b_1.2", "0"}
-	for i := 0; i < cfg.Pick(350, 2500); i++ {
+	for i := 0; i < cfg.Pick(260, 2500); i++ {
 		b := mpBounds[r.Intn(len(mpBounds))]
 		var parts [][3]string
 		for j, n := 0, r.Intn(6); j < n; j++ {
